@@ -98,3 +98,4 @@ def run(ctx):
     stream.r_pair(ctx, P)
     stream.wrapper_finishers(ctx, P)
     stream.stage_buffer_advanced_by_what_was_copied(ctx, P)
+    stream.grown_stage_emptied_on_failed_fill(ctx, P)
